@@ -1,2 +1,77 @@
-/- C13 driver (stub until the model exists) -/
-def main : IO Unit := pure ()
+/- C13 driver: op lines in, observable lines out (same format as props/C13/harness.cpp).
+   `c13` models the repaired code (Cfg.fixed); `c13 legacy` the code as found. -/
+import TboxModel.Util
+import TboxModel.C13.Model
+open Tbox.Util Tbox.C13
+
+def frontOp? (name : String) (ws : List String) : Option FrontOp :=
+  match name, ws with
+  | "conn", [] => some .conn
+  | "recv", [d] => do pure (.recv (← bytesOfHex d))
+  | "disc", [] => some .disc
+  | "end", [] => some .endS
+  | "send", [] => some .send
+  | _, _ => none
+
+def parseOp (ws : List String) : Option Op :=
+  match ws with
+  | ["open", n] => do pure (.openS (← n.toNat?))
+  | ["recv", d] => do pure (.recv (← bytesOfHex d))
+  | ["pass"] => some .pass
+  | ["opt", n] => do pure (.opt (← n.toNat?))
+  | ["winsz", a, b] => do pure (.winsz (← a.toNat?) (← b.toNat?))
+  | ["close"] => some .close
+  | ["mkdir"] => some .mkdir
+  | ["mkfunc"] => some .mkfunc
+  | ["mount", p, c, n] => do pure (.mount (← p.toNat?) (← c.toNat?) (← bytesOfHex n))
+  | ["umount", p, n] => do pure (.umount (← p.toNat?) (← bytesOfHex n))
+  | ["rmnode", i] => do pure (.rmnode (← i.toNat?))
+  | op :: rest =>
+    if op.startsWith "t" then (frontOp? (op.drop 1).toString rest).map (.front true)
+    else if op.startsWith "r" then (frontOp? (op.drop 1).toString rest).map (.front false)
+    else none
+  | _ => none
+
+def badName : Bad → String
+  | .useAfterFree => "use-after-free" | .emptyBack => "back-of-empty-history" | .uncaughtRange => "uncaught-out_of_range"
+  | .negOverflow => "negation-overflow" | .index => "index-out-of-range" | .cursor => "cursor-out-of-range"
+  | .recursion => "recursion" | .overread => "read-past-received" | .mapAt => "map-at-absent-key"
+
+/-- events → printed lines: adjacent sends are merged (as the recording connection does), ghost
+events are dropped, tags are collected into one `B` line -/
+def render (evs : List Ev) : List String :=
+  let flush (tx : Str) (acc : List String) : List String :=
+    if tx.isEmpty then acc else ("P tx " ++ hexOfBytes tx) :: acc
+  let rec go (evs : List Ev) (tx : Str) (acc : List String) (tags : List String) : List String × List String :=
+    match evs with
+    | [] => ((flush tx acc).reverse, tags.reverse)
+    | .tx _ bs :: r => go r (tx ++ bs) acc tags
+    | .probe id args :: r =>
+      go r [] (("P probe " ++ toString id ++ " " ++ toString args.length ++
+        String.join (args.map fun a => " " ++ hexOfBytes a)) :: flush tx acc) tags
+    | .endSess :: r => go r [] ("P end" :: flush tx acc) tags
+    | .bad b :: r => go r [] (("P BAD " ++ badName b) :: flush tx acc) tags
+    | .tel (.str bs) :: r => go r [] (("P str " ++ hexOfBytes bs) :: flush tx acc) tags
+    | .tel (.setopt o) :: r => go r [] (("P setopt " ++ toString o) :: flush tx acc) tags
+    | .tel (.win a b) :: r => go r [] (("P win " ++ toString a ++ " " ++ toString b) :: flush tx acc) tags
+    | .line s :: r => go r [] (((if s.startsWith "rest=" then "M " else "P ") ++ s) :: flush tx acc) tags
+    | .tag t :: r => go r tx acc (t :: tags)
+    | _ :: r => go r tx acc tags
+  let (ls, tags) := go evs [] [] []
+  (if tags.isEmpty then [] else ["B " ++ " ".intercalate tags]) ++ ls
+
+def stepLine (cfg : Cfg) (w : World) (line : String) : World × List String :=
+  let ws := words line
+  match ws with
+  | [] => (w, [])
+  | "case" :: _ => ({}, [line.trimAscii.toString])
+  | _ =>
+    match parseOp ws with
+    | none => (w, ["bad-op"])
+    | some op =>
+      match step cfg w op with
+      | none => (w, ["bad-op"])
+      | some (w', evs) => (w', render evs)
+
+def main (args : List String) : IO Unit :=
+  runDriver ({} : World) (stepLine (if args.contains "legacy" then Cfg.legacy else Cfg.fixed))
